@@ -9,6 +9,10 @@ import NV.C05.Lemmas
 
 namespace NV.C05
 
+/-- the context `save_context` stores in state `s` -/
+def ctxOf (s : M) : Ctx :=
+  { saveSp := s.vs.length, saveCsp := s.cs.length, saveCg := s.cg, saveLd := s.loadDepth, saveRd := s.restrictDestruct }
+
 /-- both stacks and the chain are unchanged -/
 structure Same (m m' : M) : Prop where
   vs : m'.vs = m.vs
@@ -433,7 +437,7 @@ theorem callFinish_good {k : CallKind} {declared : Nat} {m m2 : M} {r : Res} {fs
   | crash w m1 => exact hx.symm.trans hr
 
 theorem saveContext_spec {m m1 : M} {econ : Ctx} (h : saveContext m = some (econ, m1)) :
-    econ = { saveSp := m.vs.length, saveCsp := m.cs.length, saveCg := m.cg } ∧
+    econ = ctxOf m ∧
     m1.vs = m.vs ∧ m1.cs = m.cs ∧ m1.ctxs = econ :: m.ctxs ∧ m1.cg = m.cg := by
   simp only [saveContext] at h
   split at h
@@ -446,8 +450,8 @@ theorem afterCatch_cons {link : List Ctx} {mm : M} {s : Slot} {t : List Slot} (h
 
 /-- do_catch after its body -/
 theorem catchFinish_good {m m2 : M} {r : Res} {f : Frame} (hv : m2.vs = m.vs) (hc : m2.cs = f :: m.cs)
-    (hx : m2.ctxs = { saveSp := m.vs.length, saveCsp := m.cs.length, saveCg := m.cg } :: m.ctxs) (hr : Good m2 r) :
-    Good m (catchFinish { saveSp := m.vs.length, saveCsp := m.cs.length, saveCg := m.cg } m.ctxs r) := by
+    (hx : m2.ctxs = ctxOf m :: m.ctxs) (hr : Good m2 r) :
+    Good m (catchFinish (ctxOf m) m.ctxs r) := by
   cases r with
   | ok m4 =>
     obtain ⟨m5, hp5, h5c, h5v, h5x⟩ := popFrame_cons (m := { m4 with catchValue := CV.num 0 }) (f := f) (rest := m.cs)
@@ -461,7 +465,8 @@ theorem catchFinish_good {m m2 : M} {r : Res} {f : Frame} (hv : m2.vs = m.vs) (h
     obtain ⟨dv, hdv⟩ := hr.vs
     obtain ⟨dc, hdc⟩ := hr.cs
     obtain ⟨m6, h1, h2, h3, _, _⟩ := restoreContext_ext m5 dv m.vs (dc ++ [f]) m.cs m.cg (by rw [hdv, hv])
-      (by rw [hdc, hc]; simp)
+      (by rw [hdc, hc]; simp) m.loadDepth m.restrictDestruct
+    have h1 : restoreContext (ctxOf m) m5 = .ok m6 := h1
     simp only [catchFinish, h1]
     split
     · exact raise_good _ (Ext.mk' [Slot.val] [] (by show List.replicate 1 Slot.val ++ m6.vs = _; rw [h2]; rfl)
@@ -478,7 +483,7 @@ theorem catchFinish_good {m m2 : M} {r : Res} {f : Frame} (hv : m2.vs = m.vs) (h
 theorem safeFinish_good {declared : Nat} {m m3 : M} {r : Res} {f : Frame} {e0 : Ctx}
     (hv : m3.vs = List.replicate declared Slot.val ++ m.vs) (hc : m3.cs = f :: m.cs)
     (hx : m3.ctxs = e0 :: m.ctxs) (hr : Good m3 r) :
-    Good m (safeFinish { saveSp := m.vs.length, saveCsp := m.cs.length, saveCg := m.cg } m.ctxs declared r) := by
+    Good m (safeFinish (ctxOf m) m.ctxs declared r) := by
   cases r with
   | ok m5 =>
     obtain ⟨m6, hl6, h6v, h6c, h6x⟩ := leaveCall_spec (k := .other masterVal) (fs := [f]) (m := { m with ctxs := e0 :: m.ctxs })
@@ -490,7 +495,8 @@ theorem safeFinish_good {declared : Nat} {m m3 : M} {r : Res} {f : Frame} {e0 : 
     obtain ⟨dv, hdv⟩ := hr.vs
     obtain ⟨dc, hdc⟩ := hr.cs
     obtain ⟨m7, h1, h2, h3, _, _⟩ := restoreContext_ext m6 (dv ++ List.replicate declared Slot.val) m.vs (dc ++ [f]) m.cs m.cg
-      (by rw [hdv, hv]; simp) (by rw [hdc, hc]; simp)
+      (by rw [hdv, hv]; simp) (by rw [hdc, hc]; simp) m.loadDepth m.restrictDestruct
+    have h1 : restoreContext (ctxOf m) m6 = .ok m7 := h1
     simp only [safeFinish, h1]
     exact ⟨h2, h3, rfl⟩
   | crash w m1 =>
@@ -583,8 +589,8 @@ theorem execCore_good : ∀ (o : Op) (m : M), Good m (execCore o m)
       obtain ⟨m3, ha, h3v, h3c, h3x⟩ := adjustArgs_spec (nargs := nargs) (declared := declared)
         (m1 := enterCall (.other masterVal) declared m2) (rest := m.vs) (ev.trans h1v)
       simp only [ha]
-      have hctx : safeCtx nargs econ0 = { saveSp := m.vs.length, saveCsp := m.cs.length, saveCg := m.cg } := by
-        rw [he]; simp [safeCtx, pushVals]
+      have hctx : safeCtx nargs econ0 = ctxOf m := by
+        rw [he]; simp [safeCtx, pushVals, ctxOf]
       rw [hctx]
       match fs, efl with
       | [f], _ =>
